@@ -370,7 +370,8 @@ def c03(tier, seed):
         limits = [0, 1, 5, 9, 100, 65535]
     salt = 0
     # a session id whose quarter id needs a 2-byte (and, in thorough, a larger) varint
-    for burn in ([64] if tier == "quick" else [64, 4096]):
+    # (sid 64: the session id needs 2 bytes but its quarter id 1; sid 256: both 2; sid 16384: 4 and 2)
+    for burn in ([16, 64] if tier == "quick" else [16, 64, 4096]):
         live = 4 * burn
         for lim in ([2, 10, 100] if tier == "quick" else limits):
             steps = [step("app", "max_dgram")]
@@ -439,7 +440,9 @@ def c03(tier, seed):
 
 # ----------------------------------------------------------------------------- C06
 
-C06_CODES = [0, 63, 64, 16383, 16384, (1 << 30) - 1, 1 << 30, (1 << 62) - 1]
+C06_CODES = [0, 63, 64, 16383, 16384, (1 << 30) - 1, 1 << 30, (1 << 62) - 1,
+             1 << 32, (1 << 32) + 12345, (1 << 40) + 7, (1 << 62) - 2, (1 << 32) - 1, 1]
+C06_BIG = [1 << 32, (1 << 32) + 12345, (1 << 40) + 7, (1 << 62) - 2]
 
 
 def c06(tier, seed, scripts):
@@ -460,22 +463,47 @@ def c06(tier, seed, scripts):
                  step("app2", "accept_" + kind, tag="s", ms=5000),
                  sleep(20)]
         k = 0
+        # Barriers.  The model assumes every step has settled before the next one.  How long to wait
+        # for that is derived from the script itself (what was written / finished / reset / stopped so
+        # far); it only sets waiting budgets - the verdict is the monitor's, on what was observed.
+        sst, rst, sent, rcvd = "open", "open", 0, 0
         for o in ops:
             who = sside if o["side"] == "S" else rside
-            code = C06_CODES[(n + k) % len(C06_CODES)]
+            # every fourth history uses code 0 throughout, every fourth only codes above 2^32
+            if n % 4 == 1:
+                code = 0
+            elif n % 4 == 3:
+                code = C06_BIG[(n // 4 + k) % len(C06_BIG)]
+            else:
+                code = C06_CODES[(n + k) % len(C06_CODES)]
             k += 1
             if o["op"] == "write":
                 steps.append(step(who, "write", tag="s", len=o["n"], salt=salt, ms=3000))
+                if sst == "open" and rst == "open":
+                    sent += o["n"]
             elif o["op"] == "finish":
                 steps.append(step(who, "finish", tag="s", ms=3000))
+                if sst == "open" and rst == "open":
+                    sst = "fin"
             elif o["op"] == "reset":
                 steps.append(step(who, "reset", tag="s", code=v62(code)))
+                if sst == "open":
+                    sst = "reset"
             elif o["op"] == "stopped":
-                steps.append(step(who, "stopped", tag="s", ms=300))
+                # resolves only if the stream was finished or stopped: then allow for slow delivery
+                steps.append(step(who, "stopped", tag="s", ms=3000 if (sst != "open" or rst != "open") else 300))
             elif o["op"] == "read":
-                steps.append(step(who, "read", tag="s", buf=2, salt=salt, ms=300))
+                if sst == "open":
+                    # nothing ends the stream: wait (long) for the written bytes, then briefly for silence
+                    steps.append(step(who, "read", tag="s", buf=2, salt=salt, ms=3000, want=sent - rcvd, grace_ms=120))
+                else:
+                    steps.append(step(who, "read", tag="s", buf=2, salt=salt, ms=3000))
+                rcvd = sent
             elif o["op"] == "stop":
                 steps.append(step(who, "stop", tag="s", code=v62(code)))
+                if rst == "open":
+                    rst = "stopped"
+                steps.append(step(sside, "settle_stopped", tag="s", ms=3000))
             steps.append(sleep(40))
         out.append({"scn": "C06-%05d" % n, "role": role, "peer": "wt",
                     "meta": {"prop": "C06", "sside": sside, "rside": rside, "stag": "s", "rtag": "s",
@@ -1037,6 +1065,30 @@ def c08(tier, seed):
                     "meta": {"prop": "C08", "n": total, "tasks": tasks, "cancel_ms": cancel or 0, "delay_ms": delay},
                     "steps": steps})
         n += 1
+    # several tasks blocked in accept *before* the streams exist, each waiting for its own share
+    # in one uninterrupted await: every one of them has to be woken
+    quota_plans = [(peer, role, tasks, q, kind) for peer in ("raw", "wt") for role in ("server", "client")
+                   for tasks in (2, 3, 5) for q in (1, 2) for kind in ("uni", "bi")]
+    if tier == "quick":
+        quota_plans = pick(rng, quota_plans, 12)
+    for (peer, role, tasks, q, kind) in quota_plans:
+        total = tasks * q
+        opener = "peer" if peer == "raw" else "app2"
+        steps = []
+        for t in range(tasks):
+            steps.append(step("app", "spawn", op="accept_n_" + kind, tag="a%d" % t, n=q, pure=True, ms=5000))
+        steps.append(sleep(150))
+        if peer == "raw":
+            steps.append(step("peer", "open_n", tag="o", kind=kind, n=total, sid=v62(0), ms=25000))
+        else:
+            steps.append(step("app2", "spawn", op="open_n_" + kind, tag="o", n=total, ms=25000))
+        steps.append(step(opener, "await", tag="o", ms=30000))
+        for t in range(tasks):
+            steps.append(step("app", "await", tag="a%d" % t, ms=7000))
+        out.append({"scn": "C08-%04d" % n, "role": role, "peer": peer,
+                    "meta": {"prop": "C08", "n": total, "tasks": tasks, "quota": q, "cancel_ms": 0, "delay_ms": 0},
+                    "steps": steps})
+        n += 1
     return out
 
 
@@ -1132,7 +1184,31 @@ def c09(tier, seed):
     if tier == "quick":
         must = [p for p in plans if p[2] == pend_sets[3] and p[3] == 0]
         plans = must + pick(rng, [p for p in plans if p not in must], 16)
-    for (role, cause, ps, clones) in plans:
+    big_codes = [0, 7, 16384, (1 << 32) + 7, (1 << 40) + 12345, (1 << 62) - 2, (1 << 62) - 1]
+    # the connection ends after the request reached the server application and before it decides
+    pre = [(cause, dec) for cause in ("peer_close", "idle") for dec in ("accept", "accept_headers", "forbidden")]
+    for k, (cause, dec) in enumerate(pre):
+        code = big_codes[(k + 3) % len(big_codes)]
+        steps = [step("peer", "open_uni", tag="ctrl"),
+                 step("peer", "write", tag="ctrl", bytes=[0x00] + frame(4, SETTINGS_PAYLOAD)),
+                 step("peer", "open_bi", tag="hs"),
+                 step("peer", "write", tag="hs", bytes=frame(1, request_headers())),
+                 sleep(250), {"who": "h", "a": "mark", "name": "cause"}]
+        if cause == "peer_close":
+            steps += [step("peer", "close", code=v62(code), reason=list(b"changed my mind")), sleep(900)]
+        else:
+            steps += [sleep(2200)]
+        scn = {"scn": "C09-%04d" % n, "role": "server", "peer": "raw", "manual": True, "settle_ms": 100,
+               "decision": dec, "decide_delay_ms": 700 if cause == "peer_close" else 1800,
+               "cfg": {"idle_ms": 700, "peer_idle_ms": 30000} if cause == "idle" else {},
+               "meta": {"prop": "C09", "cause": cause, "variant": "predecision", "pending": [], "clones": 0},
+               "steps": steps}
+        if dec == "accept_headers":
+            scn["extra"] = [["x-late", "1"]]
+        out.append(scn)
+        n += 1
+    nclose = 0
+    for pi, (role, cause, ps, clones) in enumerate(plans):
         drop = cause.startswith("drop")
         cfg = {}
         if cause == "idle":
@@ -1168,7 +1244,8 @@ def c09(tier, seed):
         steps.append(sleep(60))
         steps.append({"who": "h", "a": "mark", "name": "cause"})
         if cause == "peer_close":
-            steps.append(step("peer", "close", code=v62(rng.choice([0, 7, 16384, (1 << 62) - 1])), reason=list(b"over")))
+            nclose += 1
+            steps.append(step("peer", "close", code=v62(big_codes[(nclose + 3) % len(big_codes)]), reason=list(b"over")))
         elif cause == "capsule":
             steps.append(step("peer", "write", tag="req", bytes=close_capsule_frame(rng.choice([0, 9, (1 << 32) - 1]), b"c09")))
         elif cause == "fin":
@@ -1176,7 +1253,8 @@ def c09(tier, seed):
         elif cause == "proto":
             steps.append(step("peer", "write", tag="ctrl", bytes=frame(0, b"x")))
         elif cause == "local_close":
-            steps.append(step("app", "close", code=v62(rng.choice([0, 5, (1 << 62) - 1])), reason=list(b"bye")))
+            nclose += 1
+            steps.append(step("app", "close", code=v62(big_codes[(nclose + 3) % len(big_codes)]), reason=list(b"bye")))
         elif cause == "idle":
             steps.append(sleep(1700))
         else:
